@@ -28,7 +28,7 @@
 (* executions uses the property-level predicates only.                     *)
 (*                                                                         *)
 (* Known defects of the code are switches of the code-level operators      *)
-(* (`tie`, `cursorFixed`) - FALSE reproduces the code as it is.            *)
+(* (`tie`, `cursorFixed`, `noChain`) - FALSE reproduces the code as found. *)
 (***************************************************************************)
 EXTENDS Naturals, Integers, Sequences, FiniteSets
 
@@ -181,7 +181,8 @@ NoOverfill(plan, size) ==      \* never fills a segment beyond its size
 
 PlanOK(plan, segs, size) == NoClobber(plan, segs) /\ MovesDisjoint(plan) /\ NoOverfill(plan, size)
 
-\* not part of the statement, reported as a statistic only: a segment the plan empties is also filled
+\* Not one of the three conditions of the statement (F18c; reported, never a violation): a segment the plan
+\* empties (it is listed in source_segments, "can be deleted") is also the destination of a move.
 Chained(plan) == \E a, b \in 1..Len(plan) : MvSrc(plan[a]) = MvDst(plan[b])
 
 \* ===========================================================================
@@ -204,15 +205,18 @@ InsertByUsed(q, x) ==
 RECURSIVE SortByUsed(_)
 SortByUsed(q) == IF q = <<>> THEN <<>> ELSE InsertByUsed(SortByUsed(SubSeq(q, 1, Len(q) - 1)), q[Len(q)])
 
-PDone(plan) == [pc |-> "done", plan |-> plan, srcs |-> <<>>, j |-> 1, di |-> 1, du |-> 0]
+PDone(plan) == [pc |-> "done", plan |-> plan, srcs |-> <<>>, j |-> 1, di |-> 1, du |-> 0, nc |-> TRUE]
 
-\* cursorFixed = FALSE: `let mut dest_used = 0u64;` as in the code (F18a);
+\* cursorFixed = FALSE: `let mut dest_used = 0u64;` as the code was (F18a);
 \* cursorFixed = TRUE: the cursor starts behind the first destination's own data.
-PInit(segs, tn, td, size, cursorFixed) ==
+\* noChain = FALSE: a source that does not fit advances the destination to `dest_idx + 1`, which may be a
+\*                   segment an earlier move has planned away (F18c);
+\* noChain = TRUE:  the source that does not fit stays where it is and becomes the next destination.
+PInit(segs, tn, td, size, cursorFixed, noChain) ==
   LET srcs == SortByUsed(Eligible(segs, 1, tn, td, size)) IN
   IF Len(srcs) < 2 THEN PDone(<<>>)
   ELSE [pc |-> "loop", plan |-> <<>>, srcs |-> srcs, j |-> 2, di |-> 1,
-        du |-> IF cursorFixed THEN srcs[1][2] ELSE 0]
+        du |-> IF cursorFixed THEN srcs[1][2] ELSE 0, nc |-> noChain]
 
 PStep(m, size) ==
   IF m.pc # "loop" THEN m
@@ -221,12 +225,13 @@ PStep(m, size) ==
            d == m.srcs[m.di]
        IN IF m.du + s[2] <= size
           THEN [m EXCEPT !.plan = Append(@, <<s[1], 0, d[1], m.du, s[2]>>), !.du = @ + s[2], !.j = @ + 1]
+          ELSE IF m.nc THEN [m EXCEPT !.di = m.j, !.du = s[2], !.j = @ + 1]
           ELSE IF m.di + 1 > Len(m.srcs) THEN [m EXCEPT !.pc = "done"]        \* break
           ELSE [m EXCEPT !.di = @ + 1, !.du = m.srcs[m.di + 1][2], !.j = @ + 1]
 
 RECURSIVE PRun(_, _)
 PRun(m, size) == IF m.pc = "done" THEN m ELSE PRun(PStep(m, size), size)
-PlanImpl(segs, tn, td, size, cursorFixed) == PRun(PInit(segs, tn, td, size, cursorFixed), size).plan
+PlanImpl(segs, tn, td, size, cursorFixed, noChain) == PRun(PInit(segs, tn, td, size, cursorFixed, noChain), size).plan
 
 \* ===========================================================================
 \* (c) ArchiveManager::compact: every object that was readable stays readable, unchanged,
